@@ -6,8 +6,10 @@ usage: seeded_verify.py <seed-id> <worktree> <property> [extra checks...]
  3. apply the patch to /repo, run the property's quick check (+extras), undo
  writes /verif/seeded/<seed-id>/{patch.diff,demo.py,README.md,meta.json}"""
 import json, os, shutil, subprocess, sys, tempfile, time
-sid, wt, prop = sys.argv[1], sys.argv[2], sys.argv[3]
-extra = sys.argv[4:]
+args = [a for a in sys.argv[1:] if a != '--copy']
+COPY = '--copy' in sys.argv  # run the checks against a patched scratch copy (VERIF_REPO) instead of patching /repo: safe while a vp run uses /repo
+sid, wt, prop = args[0], args[1], args[2]
+extra = args[3:]
 dst = '/verif/seeded/%s' % sid
 os.makedirs(dst, exist_ok=True)
 for f in ('patch.diff', 'demo.py', 'README.md'):
@@ -42,17 +44,29 @@ rc, out = run('git -C /repo apply --check %s/patch.diff' % dst)
 meta['patch_applies_to_repo'] = rc == 0
 results = {}
 if rc == 0:
+    scratch = None
     try:
-        run('git -C /repo apply %s/patch.diff' % dst)
+        if COPY:
+            scratch = tempfile.mkdtemp(prefix='verif_seedrepo_')
+            shutil.copytree('/repo/flumine', scratch + '/flumine', ignore=shutil.ignore_patterns('__pycache__'))
+            rcp, outp = run('cd %s && patch -p1 -s < %s/patch.diff' % (scratch, dst))
+            assert rcp == 0, outp
+            envp = 'VERIF_REPO=%s PYTHONDONTWRITEBYTECODE=1 ' % scratch
+        else:
+            run('git -C /repo apply %s/patch.diff' % dst)
+            envp = ''
         for c in [prop] + extra:
             t0 = time.time()
-            rcc, outc = run('cd /verif && VERIF_EVIDENCE_DIR=/tmp/verif_seed_ev timeout 600 ./check %s --tier quick' % c)
+            rcc, outc = run('cd /verif && %sVERIF_EVIDENCE_DIR=/tmp/verif_seed_ev_%s timeout 600 ./check %s --tier quick' % (envp, sid, c))
             lines = [l for l in outc.splitlines() if l.startswith('VIOLATION') or l.startswith('  clause=')]
             results[c] = {'exit': rcc, 'detected': rcc == 1, 'first': [l[:400] for l in lines[:4]], 'wall_s': round(time.time() - t0, 1)}
-            meta['ran'].append('git -C /repo apply patch.diff; ./check %s --tier quick -> exit %d' % (c, rcc))
+            meta['ran'].append(('patched scratch copy (VERIF_REPO); ' if COPY else 'git -C /repo apply patch.diff; ') + './check %s --tier quick -> exit %d' % (c, rcc))
     finally:
-        run('git -C /repo checkout -- .')
-        shutil.rmtree('/tmp/verif_seed_ev', ignore_errors=True)
+        if COPY:
+            shutil.rmtree(scratch, ignore_errors=True)
+        else:
+            run('git -C /repo checkout -- .')
+        shutil.rmtree('/tmp/verif_seed_ev_%s' % sid, ignore_errors=True)
 meta['checks'] = results
 meta['detected_by'] = [c for c, r in results.items() if r['detected']]
 json.dump(meta, open(os.path.join(dst, 'meta.json'), 'w'), indent=1)
